@@ -329,4 +329,81 @@ theorem T0x1210_Parse_total (fuel : Nat) (t : model_T0x1210) (j : jt808_JTMessag
     · simp only [hg, decide_false, Bool.false_eq_true, if_false]
       exact T0x1210_j3_total fuel t j a b ha hb hf (by simpa using hg)
 
+/-! ### the resource list 0x1205 -/
+
+/-- loop invariant of `T0x1205.Parse`: the `n`-th record lies at `6 + 28·n … 34 + 28·n`, inside a body of `6 + 28·total`
+bytes; the two BCD timestamps of a record are converted with the remaining loop budget -/
+theorem T0x1205_loop_total : ∀ (fuel : Nat) (t : model_T0x1205) (j : jt808_JTMessage) (body : Bytes) (n : Nat),
+    body.length = 6 + 28 * t.AudioVideoResourceTotal.toNat → n ≤ t.AudioVideoResourceTotal.toNat →
+    (t.AudioVideoResourceTotal.toNat - n) + 30 < fuel →
+    (model_T0x1205_Parse_loop1 fuel t j body ((6 + 28 * n : Nat) : Int) ((34 + 28 * n : Nat) : Int) (n : Int)).isOk = true
+  | 0, _, _, _, _, _, _, hf => by omega
+  | fuel + 1, t, j, body, n, hl, hn, hf => by
+    unfold model_T0x1205_Parse_loop1
+    by_cases hlt : n < t.AudioVideoResourceTotal.toNat
+    · have c : decide ((n : Int) < Int.ofNat t.AudioVideoResourceTotal.toNat) = true := by simp; omega
+      simp only [c, if_true]
+      rw [slice_ok body (6 + 28 * n) (34 + 28 * n) (by omega) (by omega)]
+      simp only [X.bind_ok]
+      have hcl : ((body.drop (6 + 28 * n)).take (34 + 28 * n - (6 + 28 * n))).length = 28 := by
+        simp only [List.length_take, List.length_drop]; omega
+      generalize (body.drop (6 + 28 * n)).take (34 + 28 * n - (6 + 28 * n)) = cur at hcl
+      have hcf : cur.length < fuel := by omega
+      simp only [slice_bcd _ _ _ _ _ hcf]
+      have ih : ∀ t' : model_T0x1205, t'.AudioVideoResourceTotal = t.AudioVideoResourceTotal →
+          (model_T0x1205_Parse_loop1 fuel t' j body ((6 + 28 * (n + 1) : Nat) : Int) ((34 + 28 * (n + 1) : Nat) : Int) ((n + 1 : Nat) : Int)).isOk = true := by
+        intro t' ht
+        exact T0x1205_loop_total fuel t' j body (n + 1) (by rw [ht]; exact hl) (by rw [ht]; omega) (by rw [ht]; omega)
+      have e1 : (((34 + 28 * n : Nat) : Int)) = ((6 + 28 * (n + 1) : Nat) : Int) := by push_cast; omega
+      have e2 : (((34 + 28 * n : Nat) : Int) + 28) = ((34 + 28 * (n + 1) : Nat) : Int) := by push_cast; omega
+      have e3 : ((n : Int) + 1) = ((n + 1 : Nat) : Int) := by push_cast; rfl
+      simp only [e2, e3]
+      rw [e1]
+      simp only [slice, idx_ite, u32_ite, u64_ite, bind_ite', X.bind_ok, X.bind_panic, len_eq, List.length_take, List.length_drop]
+      simp only [X.isOk_ite_iff, X.isOk_ok, X.isOk_panic, implies_true, and_true, true_and]
+      repeat' (first | (intro _) | constructor)
+      all_goals first
+        | trivial
+        | (apply ih; rfl)
+        | (simp only [bne_iff_ne, beq_iff_eq, ne_eq, Bool.not_eq_true, Bool.not_eq_false, decide_eq_true_eq, decide_eq_false_iff_not,
+             Decidable.not_not, Int.reduceToNat, Bool.false_eq_true, Bool.true_eq_false, Int.ofNat_eq_natCast, len_eq, Nat.sub_zero] at *
+           omega)
+    · have c : decide ((n : Int) < Int.ofNat t.AudioVideoResourceTotal.toNat) = false := by simp; omega
+      simp only [c, Bool.false_eq_true, if_false]
+      rfl
+
+theorem T0x1205_Parse_total (fuel : Nat) (t : model_T0x1205) (j : jt808_JTMessage) (hf : j.Body.length + 40 < fuel) :
+    (model_T0x1205_Parse fuel t j).isOk = true := by
+  have loop : ∀ t' : model_T0x1205, j.Body.length = 6 + 28 * t'.AudioVideoResourceTotal.toNat →
+      (model_T0x1205_Parse_loop1 fuel t' j j.Body (6 : Int) (34 : Int) (0 : Int)).isOk = true := by
+    intro t' hl
+    have := T0x1205_loop_total fuel t' j j.Body 0 hl (by omega) (by omega)
+    simpa using this
+  have bind_ok_isOk : ∀ (x : X (model_T0x1205 × Int × Int)) (g : model_T0x1205 × Int × Int → model_T0x1205 × GoErr),
+      x.isOk = true → (X.bind x (fun m => X.ok (g m))).isOk = true := by
+    intro x g hx; cases x <;> first | rfl | cases hx
+  simp only [model_T0x1205_Parse, model_T0x1205_Parse_j3, model_T0x1205_Parse_j2]
+  simp only [slice, idx_ite, u16_ite, u32_ite, bind_ite', X.bind_ok, X.bind_panic, len_eq, List.length_take, List.length_drop]
+  simp only [X.isOk_ite_iff, X.isOk_ok, X.isOk_panic, implies_true, and_true, true_and]
+  repeat' (first | (intro _) | constructor)
+  all_goals first
+    | trivial
+    | (apply bind_ok_isOk
+       apply loop
+       simp only [bne_iff_ne, ne_eq, Decidable.not_not, Int.ofNat_eq_natCast, Int.reduceToNat, decide_eq_true_eq, decide_eq_false_iff_not, len_eq] at *
+       omega)
+    | (simp only [bne_iff_ne, beq_iff_eq, ne_eq, Bool.not_eq_true, Bool.not_eq_false, decide_eq_true_eq, decide_eq_false_iff_not,
+         Decidable.not_not, Int.reduceToNat, Bool.false_eq_true, Bool.true_eq_false, Int.ofNat_eq_natCast, len_eq, Nat.sub_zero] at *
+       omega)
+
+/-! ### 0x9208 (alarm attachment upload command) -/
+
+theorem P0x9208_Parse_total (fuel : Nat) (p : model_P0x9208) (j : jt808_JTMessage) (hf : j.Body.length < fuel) :
+    (model_P0x9208_Parse fuel p j).isOk = true := by
+  obtain ⟨b, hb, eb⟩ := asLen_ok fuel p.P9208AlarmSign
+  have eb' : ∀ v : UInt8, model_P9208AlarmSign_getAlarmSignLen fuel ({ p with ServerIPLen := v } : model_P0x9208).P9208AlarmSign = X.ok b := fun _ => eb
+  simp only [model_P0x9208_Parse, model_P0x9208_Parse_j2, model_P0x9208_Parse_j1, eb, eb', X.bind_ok]
+  simp only [sliceFrom, slice_as _ _ _ _ _ _ hf]
+  go_total
+
 end JT.Gen.GoModel
